@@ -21,9 +21,8 @@ macro_rules! t {
         }
     };
 }
-t!(x_mul_cadical, cadical);
-t!(x_mul_kissat, kissat);
-t!(x_mul_minisat, minisat);
+t!(x_mul_z3, z3);
+t!(x_mul_cvc5, cvc5);
 #[kani::proof]
 fn x_addsub() {
             let (mut a1, mut b1) = (any_dual64(), any_dual64());
